@@ -102,8 +102,12 @@ func splitTop(s string, sep byte) []string {
 func ParseTag(raw string) (val string, args map[string][]string) {
 	parts := splitTop(raw, ',')
 	val = parts[0]
-	if strings.HasPrefix(val, "${nosuchkey.") && strings.HasSuffix(val, ":}") {
-		val = "" // placeholder with an unconfigured key and an empty default (generated on purpose)
+	if strings.HasPrefix(val, "${nosuchkey.") && strings.HasSuffix(val, "}") {
+		// placeholder with a key that is never configured (generated on purpose): the point is processed as
+		// if it had been written with the default - an empty one makes it a by-type point
+		if i := strings.Index(val, ":"); i >= 0 {
+			val = val[i+1 : len(val)-1]
+		}
 	}
 	args = map[string][]string{}
 	for _, p := range parts[1:] {
